@@ -61,10 +61,17 @@ pub struct Window {
 /// at or after the epoch (`lo`) and such that `now + len` is still representable (`hi`).
 pub fn window(kind: u8, base: i64, backwards: bool) -> Window {
     let len = len_of(kind);
+    window_span(kind, base, backwards, -2 * len, 2 * len)
+}
+
+/// same with an explicit range `lo..=hi` (seconds relative to the base) for `now`; `prev` within 2 periods of `now`
+pub fn window_span(kind: u8, base: i64, backwards: bool, lo: i64, hi: i64) -> Window {
+    let len = len_of(kind);
     let d: i64 = kani::any();
     let dp: i64 = kani::any();
-    kani::assume(d >= -2 * len && d <= 2 * len);
-    kani::assume(dp >= -2 * len && dp <= 2 * len);
+    kani::assume(d >= lo && d <= hi);
+    kani::assume(dp >= d - 4 * len && dp <= d + 4 * len);
+    kani::assume(dp >= lo && dp <= hi);
     if backwards {
         kani::assume(dp > d);
     } else {
@@ -90,7 +97,12 @@ pub struct Out {
 
 pub fn step(kind: u8, base: i64, backwards: bool) -> Out {
     let len = len_of(kind);
-    let w = window(kind, base, backwards);
+    step_span(kind, base, backwards, -2 * len, 2 * len)
+}
+
+pub fn step_span(kind: u8, base: i64, backwards: bool, lo: i64, hi: i64) -> Out {
+    let len = len_of(kind);
+    let w = window_span(kind, base, backwards, lo, hi);
     let p = period_start(w.prev, len);
     let next = p + len;
     let inner = v::VInner::new(rotation(kind), next as usize);
@@ -199,7 +211,7 @@ fn c16_reach() {
     }
 }
 
-/// Candidate finding (not part of the default list): instants before 1970. `unix_timestamp() as usize` wraps
+/// Recorded finding `pre1970_deadline` (KNOWN_FINDINGS.txt): instants before 1970. `unix_timestamp() as usize` wraps
 /// for negative timestamps, and a deadline of exactly 1970-01-01T00:00:00Z is stored as 0 = "never rotates".
 #[kani::proof]
 #[kani::unwind(2)]
@@ -218,10 +230,12 @@ fn c16_pre1970_minutely() {
     assert!(first.unix_timestamp() == next);
     let inner = v::VInner::new(Rotation::MINUTELY, first.unix_timestamp() as usize);
     let rotates = inner.should_rollover(instant(now_ts)).is_some();
+    // the recorded role is still there to be hit: a file opened before the epoch
+    kani::cover!(prev_ts < 0 && now_ts >= 0);
     assert!(rotates == (now_ts >= next));
 }
 
-/// Candidate finding (not part of the default list): on the last representable day a daily appender cannot
+/// Recorded finding `last_day_overflow` (KNOWN_FINDINGS.txt): on the last representable day a daily appender cannot
 /// compute its next deadline (`*current_date + Duration::days(1)` panics in `time`).
 #[kani::proof]
 #[kani::unwind(2)]
@@ -233,7 +247,48 @@ fn c16_last_day_daily() {
     let now = instant(ts);
     // what RollingFileAppender::write does once the deadline 9999-12-31T00:00:00Z has been reached
     let inner = v::VInner::new(Rotation::DAILY, (MAX_TS + 1 - 86400) as usize);
-    if let Some(cur) = inner.should_rollover(now) {
+    let due = inner.should_rollover(now);
+    kani::cover!(due.is_some());
+    if let Some(cur) = due {
         let _ = inner.advance_date(now, cur);
     }
+}
+
+/// experiment: every instant of the leap year 2024
+#[kani::proof]
+#[kani::unwind(2)]
+#[kani::stub(std::rt::thread_cleanup, noop)]
+#[kani::stub(core::fmt::write, fmt_write_stub)]
+fn x16_wide_daily_2024() {
+    let o = step_span(DAILY, 1_704_067_200, false, 0, 366 * 86400 - 1);
+    kani::cover!(o.rotated && o.ps == o.next);
+    kani::cover!(!o.rotated && o.now == o.next - 1);
+}
+#[kani::proof]
+#[kani::unwind(2)]
+#[kani::stub(std::rt::thread_cleanup, noop)]
+#[kani::stub(core::fmt::write, fmt_write_stub)]
+fn x16_wide_minutely_2024() {
+    let o = step_span(MINUTELY, 1_704_067_200, false, 0, 366 * 86400 - 1);
+    kani::cover!(o.rotated && o.ps == o.next);
+    kani::cover!(!o.rotated && o.now == o.next - 1);
+}
+#[kani::proof]
+#[kani::unwind(2)]
+#[kani::stub(std::rt::thread_cleanup, noop)]
+#[kani::stub(core::fmt::write, fmt_write_stub)]
+fn x16_wide_hourly_2024() {
+    let o = step_span(HOURLY, 1_704_067_200, false, 0, 366 * 86400 - 1);
+    kani::cover!(o.rotated && o.ps == o.next);
+    kani::cover!(!o.rotated && o.now == o.next - 1);
+}
+#[kani::proof]
+#[kani::unwind(2)]
+#[kani::stub(std::rt::thread_cleanup, noop)]
+#[kani::stub(core::fmt::write, fmt_write_stub)]
+fn x16_wide_minutely_feb2024() {
+    // 2024-02-15 .. 2024-03-16
+    let o = step_span(MINUTELY, 1_707_955_200, false, 0, 30 * 86400 - 1);
+    kani::cover!(o.rotated && o.ps == o.next);
+    kani::cover!(!o.rotated && o.now == o.next - 1);
 }
